@@ -1,9 +1,12 @@
 """C17 — exactly one subcommand is selected and only its settings survive.
 Generated subcommand trees x structured inputs; real parsers vs Model/C17Subcmd.v vs Spec/C17SubcmdSpec.v."""
+import ast
 import hashlib
 import json
+import os
 
-from tie.framework import g_bool, g_list, g_opt, g_pair, g_str, g_Z, run_impl_parallel
+from tie import framework
+from tie.framework import TieBroken, g_bool, g_list, g_opt, g_pair, g_str, g_Z, run_impl_parallel
 
 PROP = "C17"
 IMPORTS = "From JV Require Import Lib.Base Model.C17Subcmd Spec.C17SubcmdSpec Corr.C17Judge."
@@ -26,6 +29,50 @@ ASSUMPTIONS = [
 ]
 EXHAUSTIVE = {"quick": False, "thorough": False}
 FINDING_CLASSES = {1: "falsy-subcommand-name-keeps-all-sections", 2: "cfg-naming-other-subcommand-drops-settings"}
+
+# Which tree is under test?  coq/Corr/C17Judge.v has one judge per model variant (Model/C17Subcmd.v `variant`):
+#   judge              the pinned tree, findings 1 and 2 guarded (classes 1, 2)
+#   judge_fixed_falsy  after fixes/C17-falsy-subcommand-name-keeps-all-sections.patch  (no class 1)
+#   judge_fixed_cfg    after fixes/C17-cfg-naming-other-subcommand-drops-settings.patch (no class 2)
+#   judge_fixed_both   after both (no finding class left: any recurrence is a VIOLATION)
+# translate() reads the two `if` tests of get_subcommands the patches touch from the tree under test
+# (framework.REPO) and picks the judge; every other shape of those lines selects the pinned-tree judge, so a
+# changed line is judged against the original behaviour and shows up as a failing input.  Set C17_JUDGE in the
+# environment (or edit JUDGE_OVERRIDE) to force one.
+JUDGE = "judge"
+JUDGE_OVERRIDE = os.environ.get("C17_JUDGE")
+_FIXED_REMOVE_TEST = "subcommand and len(subcommand_keys) > 1 and (fail_no_subcommand or require_single)"
+_FIXED_MEMBER_TEST = "subcommand not in action._name_parser_map"
+_ORIG_REMOVE_TEST = "subcommand and len(subcommand_keys) > 1"
+_ORIG_MEMBER_TEST = "action._required and subcommand not in action._name_parser_map"
+
+
+def translate():
+    """No Gallina is generated for C17 (the model is hand-written); this only recognises which of the
+    four modelled trees the implementation is and selects the judge built for it."""
+    global JUDGE
+    path = os.path.join(framework.REPO, "jsonargparse", "_actions.py")
+    try:
+        tree = ast.parse(open(path).read())
+    except (OSError, SyntaxError) as e:
+        raise TieBroken("cannot read %s: %s" % (path, e), witness=None)
+    fn = None
+    for node in ast.walk(tree):
+        if isinstance(node, ast.ClassDef) and node.name == "_ActionSubCommands":
+            for it in node.body:
+                if isinstance(it, ast.FunctionDef) and it.name == "get_subcommands":
+                    fn = it
+    if fn is None:
+        raise TieBroken("_ActionSubCommands.get_subcommands not found in %s" % path, witness=None)
+    tests = [ast.unparse(n.test) for n in ast.walk(fn) if isinstance(n, ast.If)]
+    falsy_fixed = _FIXED_MEMBER_TEST in tests and _ORIG_MEMBER_TEST not in tests
+    cfg_fixed = _FIXED_REMOVE_TEST in tests and _ORIG_REMOVE_TEST not in tests
+    JUDGE = {(False, False): "judge", (True, False): "judge_fixed_falsy",
+             (False, True): "judge_fixed_cfg", (True, True): "judge_fixed_both"}[(falsy_fixed, cfg_fixed)]
+    if JUDGE_OVERRIDE:
+        JUDGE = JUDGE_OVERRIDE
+    return {"get_subcommands_if_tests": tests, "judge": JUDGE}
+
 
 OPTN = ["x", "y", "z", "w", "v", "u"]
 SUBN = ["a", "b", "c", "d", "e", "f"]
@@ -327,24 +374,33 @@ def shrink(case):
 
 
 META = {
-    "level_text": "Theorems C17_one_selected, C17_one_selected_or_falsy, C17_required_selected, C17_required_missing_fails, "
-                  "C17_optional_missing_gives_none (coq/Properties/C17.v), for subcommand trees of ANY depth and width and every "
-                  "input of the modelled space (structured argv with options, --cfg values and subcommand tokens at every level; "
-                  "parse_object; parse_string; with or without default_env=True and any environment): a successful parse has, at "
-                  "every level, the name of a declared subcommand under the subcommand key, that subcommand's complete section, a "
-                  "well-selected section below it, and no section of any other subcommand; an unselected optional subcommand leaves "
-                  "no section at all; a required subcommand with nothing given is rejected with the documented error. WHICH name is "
-                  "chosen (command line, else config/environment key, else first declared with settings = Spec.select, evaluated on "
-                  "the inputs) is judged per case inside Coq against the real parsers, not proved. The model (get_subcommands, "
+    "level_text": "Rocq theorems (coq/Properties/C17.v) over a Gallina model of the parse pipeline, for subcommand trees of ANY depth "
+                  "and width and every input of the modelled space (structured argv with options, --cfg values and subcommand tokens at "
+                  "every level; parse_object; parse_string; with or without default_env=True and any environment). "
+                  "C17_one_selected / C17_one_selected_or_falsy / C17_required_selected / C17_optional_missing_gives_none: a successful "
+                  "parse has, at every level, the name of a declared subcommand under the subcommand key, that subcommand's complete "
+                  "section (every declared option has a value), a well-selected section below it, and no section of any other "
+                  "subcommand; an unselected optional subcommand leaves no section at all. C17_required_missing_fails: a required "
+                  "subcommand with nothing given is rejected with the documented error. C17_command_line_name_wins and "
+                  "C17_config_name_wins prove the first two clauses of the selection rule at the top level: the token on the command "
+                  "line wins whatever --cfg values/environment name, and the subcommand key of a parse_object/parse_string config wins "
+                  "whatever the environment names or which sections carry settings. C17_fixed_one_selected (+2 corollaries): with "
+                  "fixes/C17-falsy-subcommand-name-keeps-all-sections.patch the full statement holds without guard. The remaining "
+                  "clause (first declared subcommand with settings), the rule at nested levels and the VALUES inside the chosen "
+                  "sections (last given on this level, else environment, else default: Spec.spec_ok with select / values_ok evaluated "
+                  "on the inputs) are judged per case inside Coq against the real parsers, not proved. The model (get_subcommands, "
                   "handle_subcommands, __call__, _load_env_vars, apply_config, the second get_subcommand pass in apply_parsing_links, "
                   "validate) is tied to real parsers built from generated trees of 1-3 subcommand levels with 1-4 subcommands each.",
-    "level_note": "Two recorded findings (known_findings/C17.txt): a falsy subcommand name keeps all sections (guard dest_truthy, "
-                  "C17_falsy_name_refuted); a --cfg value naming another subcommand drops given settings (judge class 2, "
-                  "C17_cfg_names_other_refuted). Not proved: the selection rule itself (Spec.select) and the values inside the "
-                  "chosen section - exercised by the correspondence only. Not modelled: default_config_files, aliases, explicit "
-                  "null, PREFIX_CFG variables. Trusted: Coq kernel/VM, the model's faithfulness outside the generated cases, the "
-                  "harness rendering of argv/JSON/environment, argparse tokenisation. No axioms.",
-    "technique": "Rocq proof by induction on fuel over a Gallina model of the parse pipeline (invariants Handled -> Sel through "
-                 "handle_subcommands and the links pass) + seeded correspondence on generated parser trees judged in Coq against "
-                 "the model and the executable selection spec",
+    "level_note": "Two recorded findings (known_findings/C17.txt), each with a fix patch in fixes/ and a model variant + judge for the "
+                  "repaired tree (the harness recognises the tree by the two `if` tests of get_subcommands and picks the judge): a falsy "
+                  "subcommand name keeps all sections (guard dest_truthy, C17_falsy_name_refuted); a --cfg value naming another "
+                  "subcommand drops given settings (judge class 2, C17_cfg_names_other_refuted). Not proved: Spec.select below the top "
+                  "level / for the settings-given clause, and the values - exercised by the correspondence only. Failing parses are "
+                  "only compared as 'failed' (the error kind is not tied). Not modelled: default_config_files, aliases, explicit null, "
+                  "PREFIX_CFG variables, non-int options. Trusted: Coq kernel/VM, the model's faithfulness outside the generated cases, "
+                  "the harness rendering of argv/JSON/environment, argparse tokenisation. No axioms.",
+    "technique": "Rocq proof by induction on fuel over a Gallina model of the parse pipeline, parameterised by the tree variant "
+                 "(pinned / repaired): invariants Handled -> Sel through handle_subcommands and the links pass, preservation of an "
+                 "explicit subcommand key through _parse_common; + seeded correspondence on generated parser trees judged in Coq "
+                 "against the model and the executable selection-and-values spec",
 }
